@@ -155,7 +155,10 @@ def gen_hostile(rng):
             p['item_length'] = rng.choice(((1 << 32) - 1, 65536, 65537,
                                            1 << 20, 1 << 31))
         else:
-            p['meta_len'] = (1 << 32) - 1
+            # the length the region table declares for the metadata region:
+            # huge, or smaller than where the table then puts the item
+            p['meta_len'] = rng.choice(((1 << 32) - 1, 0, 1, 4096, 65536,
+                                        1 << 20))
             p['item_length'] = rng.choice((8, (1 << 32) - 1))
         if rng.random() < 0.3:
             p['item_offset'] = rng.choice((64 * KI, 128 * KI, MI))
